@@ -72,7 +72,7 @@ func (w *World) monitorRequests() {
 			op := a.spec.Ops[a.pc]
 			if op.Kind == "ping" && w.pingVanished(a) {
 				w.Violate("C11", "ping-callback-vanished", "%s op %d (ping) waits for ever after another Ping left through its error/quit path during this call (slot emptied unconditionally)", a.spec.Name, a.pc)
-			} else if op.Kind != "online" && op.Kind != "offline" && !w.mutedOnLive(op.Kind) {
+			} else if op.Kind != "online" && op.Kind != "offline" && !w.mutedOnLive(op.Kind) && !w.blockedInWrite(a) {
 				w.Violate("C11", "call-never-returns#"+op.Kind, "%s op %d (%s) has not returned at quiescence; thread at %s", a.spec.Name, a.pc, op.Kind, a.th.site)
 			}
 		}
@@ -335,6 +335,9 @@ func (w *World) monitorProgress() { w.monitorProgressAs("C10") }
 
 // monitorProgressAs attributes a lack of progress to the given property.
 func (w *World) monitorProgressAs(prop string) {
+	if w.stalledForGood() {
+		return
+	}
 	if w.horizonHit {
 		w.Violate(prop, "no-stabilisation", "execution did not become quiet within %d steps", w.step)
 		return
@@ -368,11 +371,46 @@ func (w *World) monitorProgressAs(prop string) {
 	for _, a := range w.actors {
 		if a.gen == w.gen && a.spec.Reader == nil && !a.finished {
 			op := a.spec.Ops[a.pc]
-			if op.Kind != "online" && op.Kind != "offline" {
+			if op.Kind != "online" && op.Kind != "offline" && !w.blockedInWrite(a) {
 				w.Violate(prop, "request-not-released#"+op.Kind, "%s op %d (%s) still pending at quiescence", a.spec.Name, a.pc, op.Kind)
 			}
 		}
 	}
+}
+
+// stalledForGood: a writer sits in a Write to a peer that stopped reading, no
+// deadline is configured, and the read side of that connection has shown no
+// failure either: the application asked for waits without limit, and it got
+// one. Everything else may queue up behind that writer.
+func (w *World) stalledForGood() bool {
+	for _, a := range w.actors {
+		if a.gen != w.gen || !w.blockedInWrite(a) {
+			continue
+		}
+		c := a.th.env.conn
+		// a failure the read routine has seen: a read error, or hostile bytes it
+		// has taken out of its buffer (it may queue up behind the writer with an
+		// acknowledgement of its own before it looks at them)
+		failed := false
+		parsed := len(c.in) == 0 && w.client != nil && strings.Contains(mqtt.VerifDump(w.client), " buf=0 ")
+		for _, e := range w.log {
+			if e.C == c.id && (e.K == "read" && e.R != "" || (e.K == "bk-hostile" || e.K == "cut") && parsed) {
+				failed = true
+			}
+		}
+		if !failed {
+			return true
+		}
+	}
+	return false
+}
+
+// blockedInWrite: the actor's call sits in a Write on a live connection whose
+// peer stopped reading, and no deadline is configured: nothing is due.
+func (w *World) blockedInWrite(a *actor) bool {
+	th := a.th
+	return th != nil && th.parked && th.kind == kindEnv && th.env != nil && th.env.op == "write" &&
+		th.env.conn.wblock && !th.env.conn.closed && !th.env.conn.dead && th.env.conn.wdl.IsZero()
 }
 
 // hostileBetween: the scenario's hostile byte string went out on that
@@ -422,7 +460,7 @@ func (w *World) monitorUnexplainedErrors(prop string) {
 	expiry := false
 	for i, e := range w.log {
 		switch e.K {
-		case "cut", "bk-hostile", "bk-violation":
+		case "cut", "bk-hostile", "bk-violation", "wblock":
 			doomed[e.C] = true
 		case "stall":
 			stalled[e.C] = true
